@@ -52,6 +52,11 @@ def run(ctx):
     r = lib.rng(ctx['seed'], 'C12')
     th = ctx['tier'] == 'thorough'
     cases = [[]] + [[jc.gen_record(r)] for _ in range(400 if th else 40)] + [[jc.gen_record(r) for _ in range(r.randint(2, 5))] for _ in range(200 if th else 25)]
+    for _ in range(40 if th else 6):       # the same id used for different boards in one log (two sessions numbered from 1, a redealt board)
+        a, b, c = jc.gen_record(r), jc.gen_record(r), jc.gen_record(r)
+        b['board_id'] = a['board_id']
+        c['board_id'] = a['board_id'] if r.random() < 0.5 else c['board_id']
+        cases.append([a, b, c])
     out = lib.run_impl('jsonlog', dict(logs=cases))['logs']
     lib.make(['Spec/JsonOracle.vo', 'Model/JsonTie.vo', 'Gen/JsonFraming.vo', 'Gen/Schemas.vo'])
     viol, ties = [], []
